@@ -25,6 +25,7 @@ THEOREMS = ["C14_persistent_map", "C14_get", "C14_update", "C14_add", "C14_disca
             "C14_threads_example", "C14_observer_during_write", "C14_observer_example"]
 
 NKEYS = 4
+CALL_LIMIT = 5.0     # seconds one step (an SDK call plus the probes after it) may take before it counts as a hang
 KINDS = ["sm_small", "sm_props", "cd", "aas"]
 NVARIANTS = 6
 
@@ -41,17 +42,50 @@ def ids_of(base):
     return [L.IDS[(base + i) % len(L.IDS)] for i in range(NKEYS)]
 
 
+def _ref(name):
+    from basyx.aas import model
+    return model.ExternalReference((model.Key(model.KeyTypes.GLOBAL_REFERENCE, name),))
+
+
+def set_optional_groups(el, v):
+    """optional attributes that appear, change and disappear TOGETHER between versions: semantic id with its
+    supplemental semantic ids (v mod 3: none | semantic id only | semantic id + two supplemental ids), qualifiers
+    (odd v), extensions (v mod 4 < 2).  Assigned through the public attributes in an order that is valid at every
+    intermediate step."""
+    from basyx.aas import model
+    if isinstance(el, model.HasSemantics):
+        g = v % 3
+        el.supplemental_semantic_id = []
+        el.semantic_id = None if g == 0 else _ref("urn:sem:{}".format(v))
+        if g == 2:
+            el.supplemental_semantic_id = [_ref("urn:sup:{}:a".format(v)), _ref("urn:sup:{}:b".format(v))]
+    if isinstance(el, model.Qualifiable):
+        for q in list(el.qualifier):
+            el.remove_qualifier_by_type(q.type)
+        if v % 2 == 1:
+            el.add_qualifier(model.Qualifier("q{}".format(v), model.datatypes.Int, v))
+            el.add_qualifier(model.Qualifier("fixed", model.datatypes.String, "s{}".format(v)))
+    if isinstance(el, model.HasExtension):
+        for e in list(el.extension):
+            el.remove_extension_by_name(e.name)
+        if v % 4 < 2:
+            el.add_extension(model.Extension("ext{}".format(v % 2), model.datatypes.String, "x{}".format(v)))
+
+
 def apply_variant(obj, v):
     """in-place local modification of public attributes: the object's content becomes 'version v'"""
     from basyx.aas import model
     obj.id_short = "V{}".format(v)
     obj.category = "c{}".format(v)
     obj.description = model.MultiLanguageTextType({"en": "d{}".format(v)})
+    set_optional_groups(obj, v)
     if isinstance(obj, model.Submodel):
         names = {e.id_short for e in obj.submodel_element}
         if "p0" in names:
             obj.get_referable("p0").value = v
             obj.get_referable("col").get_referable("inner").value = "in{}".format(v)
+            set_optional_groups(obj.get_referable("p0"), v + 1)
+            set_optional_groups(obj.get_referable("col").get_referable("inner"), v + 2)
         if v % 2 == 1 and "odd" not in names:
             obj.submodel_element.add(model.Property("odd", model.datatypes.Int, value=v))
         elif v % 2 == 1:
@@ -325,6 +359,11 @@ class World:
                 rows.append([97, 0])
         for r in sorted(rows):
             d += r
+        want = sorted([k, self.rev[c][1] if c in self.rev else 98] for k, c in
+                      ((self.ids.index(i), c) for i, c in self.M.items()))
+        if sorted(rows) != want:
+            self.flag("directory", "differs-from-map", "the documents in the directory {} are not what was added or last "
+                      "committed {} ([key, content] pairs)".format(sorted(rows), want))
         return heap, d
 
     def membership(self):
@@ -366,6 +405,17 @@ def gen_op(rng, w):
     live = sorted(w.live)
     r = rng.random()
     i = rng.randrange(2)
+    # after a commit/update/get on one replica of an id: with some probability the next step works on ANOTHER live
+    # replica of the same id (held through the other instance), without any refresh in between
+    last = getattr(w, "last", None)
+    if last is not None and rng.random() < 0.35:
+        others = [x for x in live if x != last[1] and w.bound.get(x) == last[0]]
+        if others and rng.random() < 0.6:
+            x = rng.choice(others)
+            return rng.choice([("Commit", x), ("Commit", x), ("Update", x), ("SetVal", x, rng.randrange(NVARIANTS))])
+        # ... or the same id is retrieved / listed again right away (repeated retrievals with uncommitted local
+        # modifications in between must come back refreshed)
+        return rng.choice([("Get", i, last[0]), ("Get", i, last[0]), ("Iter", i), ("SetVal", last[1], rng.randrange(NVARIANTS))])
     stored = [k for k in range(NKEYS) if w.ids[k] in w.M]
     k = rng.choice(stored) if stored and rng.random() < 0.75 else rng.randrange(NKEYS)
     if not live or (r < 0.09 and len(live) < 7):
@@ -411,14 +461,36 @@ def run_history(idbase, ops=None, rng=None, n=0, dshape=0):
                     (op[2] if op[0] in ("Add", "Discard") else op[1]) not in w.live:
                 continue        # (only when replaying a shrunk history) the op names a dead object
             try:
-                out = w.do(op)
+                with L.deadline(CALL_LIMIT):      # every step has its own time limit: a call that hangs is a failure
+                    out = w.do(op)
+            except L.Hang:
+                w.flag(op[0].lower(), "does-not-return", "{} did not return within {} s".format(op, CALL_LIMIT))
+                done.append(op)
+                trace.append([[98], [], [], [], []])
+                break
             except Exception as e:   # any undocumented exception
                 w.flag(op[0].lower(), "exception-" + type(e).__name__, "{} raised {}: {}".format(op, type(e).__name__, e))
                 out = [99, L.exc_code(e)]
-            heap, d = w.probe()
-            by_id, by_obj = w.membership()
+            try:
+                with L.deadline(CALL_LIMIT):
+                    heap, d = w.probe()
+                    by_id, by_obj = w.membership()
+            except L.Hang:
+                w.flag(op[0].lower(), "store-hangs-afterwards", "after {} the store's membership/listing did not answer "
+                       "within {} s".format(op, CALL_LIMIT))
+                done.append(op)
+                trace.append([out, [], [], [], []])
+                break
             done.append(op)
             trace.append([out, heap, d, by_id, by_obj])
+            # which replica of which id was just worked on (for the generator's follow-up on another replica)
+            w.last = None
+            if op[0] in ("Commit", "Update", "SetVal") and w.bound.get(op[1]) is not None:
+                w.last = (w.bound[op[1]], op[1])
+            elif op[0] == "Get" and out[0] == 3:
+                w.last = (out[1], out[2])
+            elif op[0] == "Add" and out[0] == 1:
+                w.last = (out[1], op[2])
             if w.fail and ops is None:
                 break
         return done, trace, (w.fail, len(done) - 1) if w.fail else None
@@ -463,7 +535,7 @@ def run_threads(idbase, pre, progs, sched, dshape=0):
     """pre: sequential ops; progs: [("get",) | ("add", oid)] for thread 0 and 1, both on instance 0
     and key 1; sched: list of 0/1.  Returns (obs, fail)."""
     w = World(idbase, dshape)
-    S = L.Sched(timeout=20)
+    S = L.Sched(timeout=2 * CALL_LIMIT)
     key = 1
     lf = w.lf
     real_load = json.load
@@ -646,7 +718,7 @@ def run_writer(idbase, dshape, pre, wop):
     reference either before or after the write, and never goes back.  Returns (labels, kind, fail)."""
     import builtins
     w = World(idbase, dshape)
-    S = L.Sched(timeout=20)
+    S = L.Sched(timeout=2 * CALL_LIMIT)
     saved = (os.path.exists, json.dumps, builtins.open, os.replace)
     try:
         for op in pre:
@@ -796,6 +868,20 @@ def directed_histories():
                             ("Get", i, k), ("Len", i), ("Iter", r)])
                 res.append([("New", k, 1), ("Add", i, 0), ("Get", j, k), ("Discard", j, 1), ("Contains", i, k), ("Get", i, k),
                             ("Update", 0), ("Commit", 0), ("Get", j, k), ("Add", j, 0)])
+                # the last commit wins although the committing replica did not change since its own last write and was
+                # not refreshed in between (the document was changed / discarded and re-added through the other instance)
+                res.append([("New", k, 1), ("Add", i, 0), ("Get", 1 - i, k), ("SetVal", 1, 3), ("Commit", 1), ("Commit", 0),
+                            ("Get", r, k), ("Commit", 1), ("Iter", j), ("Commit", 0), ("Commit", 0), ("Get", 1 - i, k)])
+                res.append([("New", k, 2), ("Add", i, 0), ("Commit", 0), ("Get", 1 - i, k), ("Discard", 1 - i, 1), ("New", k, 4),
+                            ("Add", 1 - i, 2), ("Commit", 0), ("Get", r, k), ("Update", 2), ("Len", j)])
+                # repeated retrievals with uncommitted local modifications in between come back refreshed
+                res.append([("New", k, 1), ("Add", i, 0), ("Get", i, k), ("Get", i, k), ("SetVal", 0, 3), ("Get", i, k),
+                            ("SetVal", 0, 4), ("Iter", i), ("Get", j, k), ("Get", j, k), ("SetVal", 0, 2), ("Get", j, k),
+                            ("SetVal", 0, 5), ("Update", 0), ("Get", r, k)])
+                # optional attribute groups appear together in the stored state while a replica without them is alive
+                res.append([("New", k, 0), ("Add", i, 0), ("Get", 1 - i, k), ("SetVal", 1, 2), ("Commit", 1), ("Update", 0),
+                            ("SetVal", 1, 3), ("Commit", 1), ("Get", i, k), ("SetVal", 1, 5), ("Commit", 1), ("Iter", i),
+                            ("SetVal", 0, 1), ("Commit", 0), ("Update", 1)])
                 res.append([("New", k, 1), ("Add", i, 0), ("Reopen", i), ("Get", i, k), ("SetVal", 0, 5), ("Commit", 0),
                             ("Get", i, k), ("Update", 1), ("Discard", r, 1), ("Update", 0), ("Len", j)])
     return res
@@ -828,9 +914,15 @@ def run(chk):
         jobs.append((rng.randrange(len(L.IDS)), rng.getrandbits(48), rng.randint(6, maxlen),
                      rng.randrange(len(DIR_SHAPES)), None))
     import multiprocessing
-    with multiprocessing.get_context("fork").Pool(8) as pool:
-        results = pool.map(_hist_job, jobs, chunksize=8)
+    pool = multiprocessing.get_context("fork").Pool(8)
+    try:
+        # every step has its own time limit inside run_history; this overall limit is the last line of defence
+        results = pool.map_async(_hist_job, jobs, chunksize=8).get(timeout=300 + len(jobs) * 0.5)
+    finally:
+        pool.terminate()        # no worker is left behind whatever happened
+        pool.join()
     terms = []
+    shrunk = set()
     for idx, (ops, trace, fail) in enumerate(results):
         ib, ds = jobs[idx][0], jobs[idx][3]
         chk.seen((ops, ds), nontrivial=len(ops) >= 3)
@@ -841,7 +933,8 @@ def run(chk):
             chk.count("answer=" + {0: "none", 1: "added", 2: "duplicate-KeyError", 3: "object", 5: "missing-KeyError",
                                    6: "bool", 7: "len", 8: "list", 9: "discarded", 10: "committed", 11: "updated"}
                       .get(t[0][0], "other"))
-        if fail:
+        if fail and fail[0][0] not in shrunk:
+            shrunk.add(fail[0][0])
             (sig, msg), at = fail
             small = shrink_ops(ops[:at + 1], lambda o: run_history(ib, ops=o, dshape=ds)[2] is not None)
             ds2 = ds
@@ -881,7 +974,12 @@ def run(chk):
     tterms = []
     for n, (si, pre, progs, sched) in enumerate(tcases):
         ds = n % len(DIR_SHAPES)
-        obs, fail = run_threads(0, pre, progs, sched, dshape=ds)
+        try:
+            with L.deadline(8 * CALL_LIMIT):
+                obs, fail = run_threads(0, pre, progs, sched, dshape=ds)
+        except (L.Hang, TimeoutError) as e:
+            obs, fail = [[98]], ("C14:threads:{}/{}:does-not-return".format(progs[0][0], progs[1][0]),
+                                 "a thread or the scenario's set-up did not finish: {!r}".format(e))
         chk.seen(("threads", si, progs, sched), nontrivial=True)
         chk.count("threads={}/{}".format(progs[0][0], progs[1][0]))
         if fail:
@@ -906,12 +1004,17 @@ def run(chk):
     nobs = 0
     for wi, (desc, pre, wop) in enumerate(WRITER_SCENARIOS):
         for ds in (range(len(DIR_SHAPES)) if chk.tier == "thorough" else [wi % len(DIR_SHAPES), (wi + 3) % len(DIR_SHAPES)]):
-            labels, kind, fail = run_writer(wi, ds, pre, wop)
+            try:
+                with L.deadline(8 * CALL_LIMIT):
+                    labels, kind, fail = run_writer(wi, ds, pre, wop)
+            except (L.Hang, TimeoutError) as e:
+                labels, kind = [], "?"
+                fail = ("C14:observer:does-not-return", "the writer or a reader did not finish: {!r}".format(e))
             nobs += len(labels)
             chk.seen(("writer", wi, ds), nontrivial=True)
             chk.count("observed-writer=" + kind)
             chk.traces += 1
-            if labels != PAUSES[kind]:
+            if kind in PAUSES and labels != PAUSES[kind]:
                 chk.tie_broken("writer-pause-points", {"scenario": desc, "expected": PAUSES[kind], "observed": labels,
                                                        "note": "the write no longer passes the effects of model/Crash.v "
                                                                "(exists, encode, open/close of the temporary file, replace)"})
